@@ -26,7 +26,7 @@ VARIANTS = [
     ({"PYTHONHASHSEED": "0"}, {}),
     ({"PYTHONHASHSEED": "1"}, {"sym_offset": 1000}),
     ({"PYTHONHASHSEED": "0"}, {"sym_boundary": 1}),
-    ({"PYTHONHASHSEED": "12345"}, {"prior_procs": 3, "extra_defs": "before"}),
+    ({"PYTHONHASHSEED": "12345"}, {"prior_procs": 3, "extra_defs": "before", "sym_boundary": 2}),
     ({"PYTHONHASHSEED": "random"}, {"sym_offset": 1, "extra_defs": "after"}),
     ({"PYTHONHASHSEED": "987654321"}, {"sym_offset": 37, "prior_procs": 1}),
     ({"PYTHONHASHSEED": "random"}, {"extra_defs": "before", "sym_offset": 5}),
@@ -73,7 +73,7 @@ def root(x: f32[{2 * n}], y: f32[{2 * n}]):
     for {v} in seq(0, {n}):
         sub({n}, y[{v}:{v} + {n}], x[{v}:{v} + {n}])
 """
-    return GenProgram(HEADER + body, "root", ["sub"], [], {"template": "same_name_sum", "prefer_ops": ["inline", "simplify", "inline_window", "std.cleanup"]})
+    return GenProgram(HEADER + body, "root", ["sub"], [], {"template": "same_name_sum", "op_sequence": ["inline", "inline_window", "simplify"], "prefer_ops": ["inline", "simplify", "inline_window", "std.cleanup"]})
 
 
 def t_two_precisions(rng):
@@ -94,7 +94,7 @@ def root(n: size, k: index, x: f32[n + 8], y: f64[n + 8]):
 def _template(rng):
     from ..templates import any_template
 
-    return rng.choice([t_same_name_sum, t_two_precisions, any_template])(rng)
+    return rng.choice([t_same_name_sum, t_same_name_sum, t_two_precisions, any_template, any_template])(rng)
 
 
 def record_sessions(ctx, n, script_len):
@@ -104,7 +104,7 @@ def record_sessions(ctx, n, script_len):
         tries += 1
         rng = random.Random((ctx.seed * 1000003 + ctx.shard * 7919 + tries * 104729) & 0xFFFFFFFF)
         try:
-            if rng.random() < 0.35:
+            if rng.random() < 0.5:
                 gp = _template(rng)
             else:
                 gp = gen_program(rng, knobs(rng))
@@ -114,15 +114,20 @@ def record_sessions(ctx, n, script_len):
         sess = Session(mod, gp.root, gp.text)
         script = []
         prefer = (gp.meta or {}).get("prefer_ops")
+        seq = (gp.meta or {}).get("op_sequence")
+        naccepted = 0
         for k_ in range(script_len):
-            if prefer and k_ < 3 and rng.random() < 0.7:
+            if seq and naccepted < len(seq) and rng.random() < 0.8:
+                st = random_step(sess, rng, {seq[naccepted]: 1.0})
+            elif prefer and k_ < 3 and rng.random() < 0.7:
                 st = random_step(sess, rng, {o: 1.0 for o in prefer})
             else:
                 st = random_step(sess, rng, weights())
             if st is None:
                 continue
             script.append(st)
-            apply_step(sess, st)
+            if apply_step(sess, st).status == "accepted":
+                naccepted += 1
         out.append({"text": gp.text, "root": gp.root, "steps": script})
     return out
 
